@@ -142,5 +142,21 @@ package routing
 //@   loop * havoc
 //@   site call PayloadSize nth 0 as blinded-estimate-has-total-amount: assert r.BlindedPaymentPathSet != nil && arg(0).TotalAmtMsat != 0
 //@   site call PayloadSize nth 0 as blinded-estimate-fields: assert arg(0).AmtToForward == amount && arg(0).OutgoingTimeLock == wrap(finalHtlcExpiry, 32) && arg(1) == 0
+//@   site call PayloadSize nth 0 as blinded-estimate-has-dest-records: assert arg(0).CustomRecords == r.DestCustomRecords && arg(0).Metadata == r.Metadata
 //@   site call PayloadSize nth 1: assert r.BlindedPaymentPathSet == nil && arg(0).AmtToForward == amount &&
 //@        arg(0).OutgoingTimeLock == wrap(finalHtlcExpiry, 32) && arg(1) == 0
+//@
+//@ // ---- a payment to a blinded path tells pathfinding so (the final-hop size estimate depends on it)
+//@ func (p *paymentSession) RequestRoute
+//@   props C19
+//@   loop * havoc
+//@   site call GraphSession nth 0 as restrictions-name-the-blinded-path-set: assert restrictions.BlindedPaymentPathSet == p.payment.BlindedPathSet
+//@   site call newRoute as newroute-domain: domain arg(blindedPathSet) == nil && forallq(k, 0, len(arg(pathEdges)), arg(pathEdges)[k] != nil && arg(pathEdges)[k].policy != nil)
+//@   site call GraphSession nth 0 as restrictions-fields: assert restrictions.DestCustomRecords == p.payment.DestCustomRecords &&
+//@        restrictions.Metadata == p.payment.Metadata && restrictions.LastHop == p.payment.LastHop &&
+//@        restrictions.OutgoingChannelIDs == p.payment.OutgoingChannelIDs && restrictions.PaymentAddr == p.payment.PaymentAddr
+//@
+//@ func (p *paymentSession) RequestRoute$1
+//@   props C19
+//@   loop * havoc
+//@   site call pathFinder: assert arg(1) == restrictions && arg(6) == maxAmt && arg(8) == finalHtlcExpiry
